@@ -41,6 +41,24 @@ Print Assumptions C13_decode_equals_causal.
 (* NOT proved: that attention weights are the softmax over the allowed positions and that masked positions receive
    exactly zero weight (exp underflow of finfo.min), the cells' recurrences, time_major / batch handling, Linen = NNX:
    decided per run against numpy references, paired-input oracles and the integer-cell correspondence. *)
+(* the mask helpers: make_attention_mask is the pairwise predicate, make_causal_mask lets query i see exactly the keys
+   0 .. i (so row i of the causal mask selects the prefix the decode cache holds at step i), combine_masks is the
+   pointwise conjunction of the masks that are given and None when none is *)
+Theorem C13_attention_mask_entry : forall A B (f : A -> B -> bool) q k i j da db, i < length q -> j < length k ->
+  nth j (nth i (attn_mask f q k) []) false = f (nth i q da) (nth j k db).
+Proof. exact @attn_mask_entry. Qed.
+Theorem C13_causal_mask_entry : forall n i j, i < n -> j < n -> nth j (nth i (causal_mask n) []) false = Nat.leb j i.
+Proof. exact causal_mask_entry. Qed.
+Theorem C13_causal_row_sees_prefix : forall K (ks : list K) i, i < length ks -> visible (nth i (causal_mask (length ks)) []) ks = firstn (S i) ks.
+Proof. exact @causal_row_sees_prefix. Qed.
+Print Assumptions C13_causal_row_sees_prefix.
+Theorem C13_combine_masks_is_and : forall ms m i j, combine_masks ms = Some m ->
+  nth j (nth i m []) false = forallb (fun x => match x with Some a => nth j (nth i a []) false | None => true end) ms.
+Proof. exact combine_masks_entry. Qed.
+Theorem C13_combine_masks_none : forall ms, combine_masks ms = None <-> forall x, In x ms -> x = None.
+Proof. exact combine_masks_none. Qed.
+Print Assumptions C13_combine_masks_is_and.
+
 Example C13_example :
   rnn Z Z Z (int_cell 2 1 100) true true (Some 3%nat) 0%Z [1; 2; 3; 9]%Z = (Some 17%Z, [117; 208; 303; 943]%Z) /\
   fst (loop Z Z Z (int_cell 2 1 100) 0%Z [3; 2; 1]%Z) = 17%Z.
